@@ -73,6 +73,11 @@ func rtKnobs(k *knobs) {
 // slashed to zero and the SAME entity (100 % commission) is rewarded as the resolver.
 const scriptRtSlashReward = "rt-slash-reward"
 
+// scriptRtSuspendTimeout: the primary scheduler commits alone in the last block of the epoch
+// after which the compute nodes' registrations expire: the runtime is suspended while the
+// round timeout of the unfinished round is armed, and the chain runs past that height.
+const scriptRtSuspendTimeout = "rt-suspend-timeout"
+
 const findingTFC = "C10:transfer-from-common-escrow-zero-balance-pool-full-commission"
 
 func (w *world) rtInit() {
@@ -125,6 +130,18 @@ func (w *world) rtInit() {
 			s.ownEscrow = append(s.ownEscrow, 0)
 		}
 		s.stragglers, s.liveEval, s.msgs, s.rtModel = 0, 0, false, registry.GovernanceEntity
+	}
+	if w.d.Script == scriptRtSuspendTimeout {
+		s.group, s.backup, s.timeout, s.expire, s.slashAmt = 2, 0, 6, 2, big.NewInt(0)
+		s.nodes, s.own, s.ownEscrow = nil, nil, nil
+		for i := 0; i < 2; i++ {
+			cn := *muxdrv.NewValidator(w.g.Seed, 10+i)
+			cn.Entity = w.g.Validators[0].Entity
+			s.nodes = append(s.nodes, &cn)
+			s.own = append(s.own, false)
+			s.ownEscrow = append(s.ownEscrow, 0)
+		}
+		s.stragglers, s.liveEval, s.msgs, s.rtModel, s.wantRtGov = 0, 0, false, registry.GovernanceEntity, false
 	}
 	multiN := 0
 	for _, o := range s.own {
@@ -319,7 +336,7 @@ func (w *world) rtRegisterNodes(local map[staking.Address]uint64, expiration uin
 // roothashBlock plans block b of a roothash history.
 func (w *world) roothashBlock(b int) *blockPlan {
 	r, g, s := w.rng, w.g, w.rt
-	scripted := w.d.Script == scriptRtSlashReward
+	scripted := w.d.Script == scriptRtSlashReward || w.d.Script == scriptRtSuspendTimeout
 	bp := &blockPlan{proposer: r.Intn(len(w.props))}
 	bp.votes, bp.votesTag = w.votePattern()
 	var etag string
@@ -390,6 +407,20 @@ func (w *world) roothashBlock(b int) *blockPlan {
 		w.count("rt-lastblock/" + fmt.Sprint(st.LastBlock.Header.HeaderType))
 	}
 
+	if w.d.Script == scriptRtSuspendTimeout {
+		// epoch interval 3: committee from height 6, nodes valid through epoch 2 (heights 6..8)
+		if st != nil && !st.Suspended && st.Committee != nil && st.CommitmentPool != nil && w.c.Next == 8 {
+			round := st.LastBlock.Header.Round + 1
+			if schedM, ok := st.Committee.Scheduler(round, 0); ok {
+				if sched := w.rtNode(schedM.PublicKey); sched != nil {
+					if ec, err := w.rtCommit(st.LastBlock, sched.Node.Public(), sched, 0, commitment.FailureNone, 0, false); err == nil {
+						bp.txs = append(bp.txs, w.rtCommitTx(local, sched, "rt:scheduler commit", ec))
+					}
+				}
+			}
+		}
+		return bp
+	}
 	if scripted {
 		if st == nil || st.Suspended || st.Committee == nil || st.CommitmentPool == nil {
 			return bp
